@@ -85,63 +85,64 @@ impl AsmRunner {
 
     /// Assemble `text` with the real lace code; `reset` = call `lace::reset_state()` first.
     pub fn observe(&mut self, stack: bool, text: &str, reset: bool) -> String {
-        let src: &'static str = Box::leak(text.to_string().into_boxed_str());
-        set_features(stack);
-        if reset {
-            lace::reset_state();
-        }
         self.cap.begin();
         let t0 = std::time::Instant::now();
-        let mut result: Option<Result<Assembled, Report>> = None;
-        let outcome = guarded(|| result = Some(assemble_real(src)));
-        let ms = t0.elapsed().as_millis();
-        self.max_ms = self.max_ms.max(ms);
+        let obs = observe_core(stack, text, reset);
+        self.max_ms = self.max_ms.max(t0.elapsed().as_millis());
         let _ = self.cap.end();
-        match (outcome, result) {
-            (Outcome::Ok, Some(Ok(a))) => {
-                let mut s = format!("ok {} {}", a.orig.map(|o| format!("{:04x}", o)).unwrap_or("-".into()), a.words.len());
-                for w in &a.words {
-                    s.push_str(&format!(" {:04x}", w));
-                }
-                s.push_str(" |");
-                for (o, l) in &a.spans {
-                    s.push_str(&format!(" {}:{}", o, l));
-                }
-                s.push_str(" |");
-                for b in &a.bps {
-                    s.push_str(&format!(" {:04x}", b));
-                }
-                s
+        obs
+    }
+}
+
+/// Assemble on the current thread (no output capture of its own).
+pub fn observe_core(stack: bool, text: &str, reset: bool) -> String {
+    let src: &'static str = Box::leak(text.to_string().into_boxed_str());
+    set_features(stack);
+    if reset {
+        lace::reset_state();
+    }
+    let mut result: Option<Result<Assembled, Report>> = None;
+    let outcome = guarded(|| result = Some(assemble_real(src)));
+    match (outcome, result) {
+        (Outcome::Ok, Some(Ok(a))) => {
+            let mut s = format!("ok {} {}", a.orig.map(|o| format!("{:04x}", o)).unwrap_or("-".into()), a.words.len());
+            for w in &a.words {
+                s.push_str(&format!(" {:04x}", w));
             }
-            (Outcome::Ok, Some(Err(report))) => {
-                let kind = diag_kind(&report);
-                let labels: Vec<(usize, usize)> =
-                    report.labels().map(|l| l.map(|x| (x.offset(), x.len())).collect()).unwrap_or_default();
-                // direct predicates on the implementation
-                let mut rendered_ok = true;
-                if let Outcome::Panic(_) = guarded(|| {
-                    let _ = format!("{:?}", report);
-                }) {
-                    rendered_ok = false;
-                }
-                if !rendered_ok {
-                    return format!("render-panic {kind}");
-                }
-                for (o, l) in &labels {
-                    if o + l > src.len() {
-                        return format!("label-outside {kind} {o} {l}");
-                    }
-                }
-                match labels.first() {
-                    Some((o, l)) => format!("diag {kind} {o} {l}"),
-                    None => format!("diag {kind} - -"),
-                }
+            s.push_str(" |");
+            for (o, l) in &a.spans {
+                s.push_str(&format!(" {}:{}", o, l));
             }
-            (Outcome::Panic(_), _) => "panic".into(),
-            (Outcome::Exit(c), _) => format!("exit {c}"),
-            (Outcome::Fuel, _) => "fuel".into(),
-            (Outcome::Ok, None) => "harness-error".into(),
+            s.push_str(" |");
+            for b in &a.bps {
+                s.push_str(&format!(" {:04x}", b));
+            }
+            s
         }
+        (Outcome::Ok, Some(Err(report))) => {
+            let kind = diag_kind(&report);
+            let labels: Vec<(usize, usize)> =
+                report.labels().map(|l| l.map(|x| (x.offset(), x.len())).collect()).unwrap_or_default();
+            // direct predicates on the implementation
+            if let Outcome::Panic(_) = guarded(|| {
+                let _ = format!("{:?}", report);
+            }) {
+                return format!("render-panic {kind}");
+            }
+            for (o, l) in &labels {
+                if o + l > src.len() {
+                    return format!("label-outside {kind} {o} {l}");
+                }
+            }
+            match labels.first() {
+                Some((o, l)) => format!("diag {kind} {o} {l}"),
+                None => format!("diag {kind} - -"),
+            }
+        }
+        (Outcome::Panic(_), _) => "panic".into(),
+        (Outcome::Exit(c), _) => format!("exit {c}"),
+        (Outcome::Fuel, _) => "fuel".into(),
+        (Outcome::Ok, None) => "harness-error".into(),
     }
 }
 
@@ -415,6 +416,146 @@ pub fn run(o: &crate::Opts) {
         st.len_hist,
         runner.max_ms,
         st.samples.join(",")
+    );
+    sink.finish(o, &stats);
+}
+
+// ------------------------------------------------------------------------------------------
+// C19: sequences of sources on one thread
+
+pub fn seq_request(stack: bool, reset: bool, texts: &[String]) -> String {
+    let mut s = format!("A19 {} {} {}", stack as u8, reset as u8, texts.len());
+    for t in texts {
+        s.push(' ');
+        s.push_str(&hex(t.as_bytes()));
+    }
+    s
+}
+
+pub fn parse_seq_request(line: &str) -> Option<(bool, bool, Vec<String>)> {
+    let f: Vec<&str> = line.split_whitespace().collect();
+    if f.len() < 4 || f[0] != "A19" {
+        return None;
+    }
+    let mut texts = Vec::new();
+    for h in &f[4..] {
+        texts.push(String::from_utf8(unhex(h)?).ok()?);
+    }
+    Some((f[1] != "0", f[2] != "0", texts))
+}
+
+/// Assemble the texts in order on this thread (`reset` = `lace::reset_state()` before each).
+/// With `reset`, each text is also assembled on a fresh thread; a difference is appended to the
+/// element as ` !fresh <observation>` (and then disagrees with the model).
+pub fn observe_seq(runner: &mut AsmRunner, stack: bool, reset: bool, texts: &[String]) -> String {
+    // start from a clean table, like a new process
+    lace::reset_state();
+    let mut parts = Vec::new();
+    for t in texts {
+        let mut obs = runner.observe(stack, t, reset);
+        if reset {
+            let t2 = t.clone();
+            let fresh = std::thread::spawn(move || observe_core(stack, &t2, false)).join().unwrap_or("thread-panic".into());
+            if fresh != obs {
+                obs.push_str(" !fresh ");
+                obs.push_str(&fresh);
+            }
+        }
+        parts.push(obs);
+    }
+    lace::reset_state();
+    parts.join(" ## ")
+}
+
+/// Sources that share label names, fail at different stages, and use different origins.
+fn seq_element(rng: &mut Rng, seed: u64, idx: u64, k: u64) -> String {
+    const TEMPLATES: &[&str] = &[
+        "a halt\nb halt\n",
+        "a halt\n",
+        ".orig x4000\na add r0 r0 #1\nbr a\n",
+        ".orig x200\nb lea r0 a\na .fill x1\n",
+        "a halt\nb add r0\n",            // fails after a, b were recorded
+        "a halt\nb halt\nc é\n",          // lexer failure (before anything is recorded)
+        "a halt\nb br nowhere\n",         // fails in backpatch
+        "a halt\n.blkw #300\nbr a\n",     // fails in emit
+        "a halt\na halt\n",               // duplicate inside one source
+        "br b\nb halt\n",
+        "loop add r1 r1 #-1\nbrp loop\nhalt\n",
+        "LOOP halt\nloop halt\n",
+        ".break\nstart halt\n.break\n",
+        "",
+        "start",
+        "start push r0\n",
+    ];
+    match rng.below(4) {
+        0 | 1 => pk2(rng, TEMPLATES).replace("\\n", "\n"),
+        _ => gen_case(seed ^ 0x19, idx * 8 + k).2,
+    }
+}
+
+fn pk2(rng: &mut Rng, xs: &[&'static str]) -> &'static str {
+    *rng.pick(xs)
+}
+
+pub fn run_seq(o: &crate::Opts) {
+    let mut runner = AsmRunner::new();
+    let mut sink = crate::Sink::new(o);
+    if let Some(path) = &o.replay {
+        for line in std::fs::read_to_string(path).unwrap().lines() {
+            match parse_seq_request(line) {
+                Some((stack, reset, texts)) => {
+                    let obs = observe_seq(&mut runner, stack, reset, &texts);
+                    sink.put(line, &obs);
+                }
+                None => sink.put(line, "bad-request"),
+            }
+        }
+        sink.finish(o, "{}");
+        return;
+    }
+    let total: u64 = if o.thorough { 60_000 } else { 2_400 };
+    let mut by_len = [0u64; 7];
+    let (mut with_reset, mut without_reset, mut fresh_diffs, mut elems, mut failed_elems) = (0u64, 0u64, 0u64, 0u64, 0u64);
+    let mut samples: Vec<String> = Vec::new();
+    for idx in 0..total {
+        if (idx as usize) % o.nshards != o.shard {
+            continue;
+        }
+        let mut rng = Rng::new(o.seed.wrapping_mul(0xC19).wrapping_add(idx) ^ 0x5EC);
+        let n = 2 + rng.below(5);
+        let stack = rng.chance(3, 4);
+        let reset = rng.chance(4, 5);
+        let mut texts: Vec<String> = (0..n).map(|k| seq_element(&mut rng, o.seed, idx, k)).collect();
+        if rng.chance(1, 4) {
+            // the same source again, later in the history
+            let t = texts[0].clone();
+            texts.push(t);
+            texts.truncate(6);
+        }
+        let obs = observe_seq(&mut runner, stack, reset, &texts);
+        by_len[texts.len()] += 1;
+        if reset { with_reset += 1 } else { without_reset += 1 }
+        fresh_diffs += obs.matches(" !fresh ").count() as u64;
+        for part in obs.split(" ## ") {
+            elems += 1;
+            if !part.starts_with("ok") {
+                failed_elems += 1;
+            }
+        }
+        if samples.len() < 3 && sink.n % 41 == 7 {
+            samples.push(format!(
+                "{{\"stack\":{},\"reset\":{},\"sources\":[{}],\"observed\":\"{}\"}}",
+                stack,
+                reset,
+                texts.iter().map(|t| format!("\"{}\"", json_escape(&t.chars().take(60).collect::<String>()))).collect::<Vec<_>>().join(","),
+                json_escape(&obs.chars().take(160).collect::<String>())
+            ));
+        }
+        sink.put(&seq_request(stack, reset, &texts), &obs);
+    }
+    let stats = format!(
+        "{{\"sequences\":{},\"with_reset\":{},\"without_reset\":{},\"elements\":{},\"failed_elements\":{},\"fresh_thread_differences\":{},\"by_length\":{:?},\"samples\":[{}]}}",
+        sink.n, with_reset, without_reset, elems, failed_elems, fresh_diffs, by_len, samples.join(",")
     );
     sink.finish(o, &stats);
 }
